@@ -599,3 +599,7 @@ for _p in ("C07", "C17"):
     PROPS[_p]["claim"] += (" END TO END: generated_*_decodes (Proofs/EndToEnd/DecodeC07.lean, DecodeSetupC07.lean; 26 decoders) — each DecodeFromBytes AS TRANSLATED FROM THE "
                            "SOURCE ON THIS RUN, started from ANY previous receiver content on ANY Go slice (any capacity, any bytes beyond len) whose visible bytes are the "
                            "specification's encoding of a well-formed value, returns exactly that value's view.")
+PROPS["C08"]["proofs"] = PROPS["C08"]["proofs"] + ["Bmc.Proofs.EndToEnd.RoundTripC08"]
+PROPS["C08"]["claim"] += (" END TO END: generated_{message,v1,v2,aes,rakp1}_roundtrip (Proofs/EndToEnd/RoundTripC08.lean) — SerializeTo AS TRANSLATED ON THIS RUN, over any stale "
+                          "buffer, produces bytes which DecodeFromBytes AS TRANSLATED ON THIS RUN, from any receiver content on any Go slice showing those bytes, turns back "
+                          "into the serialised fields and the inner payload (every mac, every lawful block cipher, every length).")
